@@ -132,7 +132,32 @@ def gen_cases(rng, tier):
                 v = ['s', ''.join(rng.choice(ALPHA + ['b', 'c', '0', "'", ',', ':', '/', '\x0b', '\x0c', '~', '\x7f', '\x01'])
                                   for _ in range(ln))]
             args.append([k, v])
-        yield {'args': args}
+        if rng.random() < 0.2 and args:
+            # the same option named twice in one request (HiddenServiceDir / HiddenServicePort groups, ExitPolicy, MapAddress)
+            k0 = args[0][0]
+            args.append([k0, ['s', rng.choice(['second', '', 'a b', args[0][1][1] if args[0][1][0] == 's' else 'x'])]])
+            if rng.random() < 0.5:
+                args.insert(rng.randrange(len(args)), [k0, ['i', 7]])
+        c = {'args': args}
+        if rng.random() < 0.3:
+            # an earlier request carrying values that compare equal but are of another type (1 / True / '1', 0 / False / '')
+            c['pre'] = [[[k, twin(v)] for k, v in args]] + ([[[k, v] for k, v in args]] if rng.random() < 0.3 else [])
+        yield c
+    for a, b in itertools.permutations([['i', 1], ['b', True], ['s', '1'], ['i', 0], ['b', False], ['s', '0'], ['s', 'True'], ['s', '']], 2):
+        yield {'args': [['NumCPUs', b]], 'pre': [[['NumCPUs', a]]]}
+        yield {'args': [['SafeLogging', b], ['NumCPUs', a]], 'pre': [[['SafeLogging', a], ['NumCPUs', b]]]}
+
+
+def twin(v):
+    if v[0] == 'i' and v[1] in (0, 1):
+        return ['b', bool(v[1])]
+    if v[0] == 'b':
+        return ['i', int(v[1])]
+    if v[0] == 's' and v[1] in ('0', '1'):
+        return ['i', int(v[1])]
+    if v[0] == 'o':
+        return ['s', v[1]]
+    return v
 
 
 class StrObj(object):
@@ -156,6 +181,18 @@ def run_impl(case):
     proto.connectionMade = lambda: None
     tr = proto_helpers.StringTransport()
     proto.makeConnection(tr)
+    # earlier requests on the same connection (each acknowledged): what was sent before must not colour what is sent now
+    for pre in case.get('pre') or []:
+        pflat = []
+        for k, v in pre:
+            pflat += [k, pyval(v)]
+        try:
+            proto.set_conf(*pflat).addErrback(lambda f: None)
+        except Exception:
+            pass
+        if tr.value():
+            tr.clear()
+            proto.dataReceived(b'250 OK\r\n')
     flat = []
     for k, v in case['args']:
         flat += [k, pyval(v)]
